@@ -37,7 +37,7 @@ RULE = (
     "null; for every datum at <=1 deviation the resolver is invoked iff deserialize accepts and receives an equal value, "
     "otherwise a GraphQL error and no call. Source worlds: argument signatures (required / default / None / "
     "unserialisable / list default / Undefined / enum default), interfaces, unions of objects, id_types with encoding, "
-    "error_handler. Composition of operations: every ordered pair (quick) / triple (thorough) of a menu of 14 operations "
+    "error_handler. Composition of operations: every ordered pair (quick) / triple (thorough) of a menu of 16 operations "
     "sharing types on purpose (the same union twice, named and unnamed; a class flattened here and plain there; interface "
     "implementations; recursion only through resolvers; a conversion carried by a list field): the schema validates, each "
     "operation executes to its fixed expected data, and its type and every type reachable from it are those of the "
@@ -827,6 +827,11 @@ class CR2:
     @resolver
     def pal(self) -> CR: return CR(9)
 NamedU = Annotated[Union[CA, CB], type_name("NamedU")]
+@dataclass
+class CBSub(CB):
+    extra: int = 9
+def b_sub() -> CB: return CBSub(5)            # an instance of a subclass of the declared (non-interface) object type
+def b_subs() -> List[CB]: return [CB(1), CBSub(2)]
 def u_one() -> Union[CA, CB]: return CA(0, 1)
 def u_two() -> Union[CA, CB]: return CB(2)
 def u_opt() -> Optional[Union[CA, CB]]: return None
@@ -843,6 +848,8 @@ def r_rec() -> CR: return CR()
 def r2_rec() -> CR2: return CR2()
 U_SEL = "{ ... on CA { x i } ... on CB { y } }"
 MENU = {
+    "b_sub": ("bSub { y }", {"y": 5}),
+    "b_subs": ("bSubs { y }", [{"y": 1}, {"y": 2}]),
     "u_one": ("uOne " + U_SEL, {"x": 1, "i": 0}),
     "u_two": ("uTwo " + U_SEL, {"y": 2}),
     "u_opt": ("uOpt " + U_SEL, None),
